@@ -20,6 +20,10 @@ import EaselModel.Msafile.PsiblastLemmas
 import EaselModel.Msafile.GuessWritten
 import EaselModel.Msafile.SelexAnnRoundTrip
 import EaselModel.Msafile.StoIdem
+import EaselModel.Msafile.A2mReadDomain
+import EaselModel.Msafile.AfaReadDomain
+import EaselModel.Msafile.ClustalReadDomain
+import EaselModel.Msafile.PsiblastReadDomain
 /-! # C03 — writing an alignment and reading it back preserves it: property theorems
 
 Full statement (properties.jsonl): for every well-formed alignment, writing it in any of the ten formats and reading the
@@ -267,9 +271,22 @@ blank/tab/NUL/LF, not beginning with `#` nor `//`; text residues graphic; digita
     (`finiteF32`; `inf`/`nan` are printed and then rejected by the reader).
 `stoProject` = the alignment itself with the rows in the reader's mode, default weights, and of the cut-offs which are set.
 
-PARTIAL with respect to the full statement ("Stockholm and Pfam preserve all of it"): `StoAnn` still demands `gc = []`
-(unparsed #=GC), no #=GS (`sqacc sqdesc gs`), no #=GR (`ss sa pp gr`), no weights: Stages 4.3–4.5 are not covered by a
-theorem; the numeric VALUE of weights/cut-offs is not in the reader model.  The executable check covers all of them
+  * unparsed `#=GC <tag>` lines (Stage 4.3, `stockholm_roundtrip_gc`): tags pairwise distinct, tokens (non-empty, no
+    blank/tab/NUL/LF) other than the five parsed tags (`gcTagOk`), text `colTextOk`.
+
+  * `#=GR` per-residue annotation (Stage 4.5, `stockholm_roundtrip_gr`): `ss sa pp` and the unparsed tags `gr`, any subset
+    of the sequences; an array that is present has `nseq` entries, at least one set; unparsed tags pairwise distinct tokens
+    other than `SS SA PP` (`grTagOk`); text `colTextOk`; first-mention order = order of `m.gr` (`grOrderOk`).
+
+  * `#=GS <seqname> AC` / `DE` / unparsed `<tag>` (Stage 4.4, PARTIAL: `stockholm_roundtrip_gs_partial`): `sqacc`, `sqdesc`,
+    `gs`, any subset of the sequences, under the first-mention-order hypothesis `gsOrderOk` (the first `#=GS` kind written
+    covers every sequence; `exStoGsBad` shows the hypothesis is needed); unparsed tags pairwise distinct tokens other than
+    `WT AC DE` (`gsTagOk`), their values non-empty, free text, no line feed.
+`stockholm_roundtrip_full_partial` lists every field that comes back.
+
+PARTIAL with respect to the full statement ("Stockholm and Pfam preserve all of it"): `StoAnn` still demands `hasw = false`
+(no `#=GS … WT` weights): that part of Stage 4.4 is not covered by a theorem; multi-line `#=GS` values (with line feeds)
+are excluded; the numeric VALUE of weights/cut-offs is not in the reader model.  The executable check covers all of them
 (field-by-field comparison on the real library, values included). -/
 
 theorem stockholm_write_deterministic (pfam : Bool) (abc : Option Abc) (m₁ m₂ : Msa) (h : m₁ = m₂) :
@@ -365,6 +382,62 @@ theorem stockholm_roundtrip_header (pfam : Bool) (abc : Option Abc) (cfg : Cfg) 
     intro b _; cases b <;> rfl
   · rfl
 
+/-- **Stage 4.3: unparsed `#=GC <tag>` lines** (tags pairwise distinct tokens other than `SS_cons SA_cons PP_cons RF MM`, one
+    non-blank, non-NUL character per column): written after the five parsed `#=GC` lines of every block and wrapped with it,
+    the reader numbers the tags in the order of the first block and appends block by block; they come back in order -/
+theorem stockholm_roundtrip_gc (pfam : Bool) (abc : Option Abc) (cfg : Cfg) (enc : UInt8 → UInt8) (txt : Nat → Bytes) (m : Msa)
+    (h : StoWritable abc cfg enc txt m) :
+    stockholmRead cfg (splitLines (stockholmWrite pfam abc m)) = (.ok (stoProject cfg m), []) ∧ (stoProject cfg m).gc = m.gc :=
+  ⟨stoRead_write pfam abc cfg enc txt m h, rfl⟩
+
+/-- **Stage 4.5: `#=GR` per-residue annotation**: `SS SA PP` (each an optional array, per sequence optional) and the unparsed
+    tags `gr`, written behind the row of their sequence in every block and wrapped with it.  Admitted (`StoAnn`): an array
+    that is present has one entry per sequence and at least one of them set (`per_ok`, `gr_tag_ok`, `gr_ne`: an all-absent
+    array is not written, hence not read); unparsed tags pairwise distinct tokens other than `SS SA PP` (`grTagOk`); every string
+    `colTextOk`; and `grOrderOk`: the reader numbers the unparsed tags in the order it meets them in the first block, which is the
+    order of `m.gr` exactly when, wherever tag `t` annotates sequence `i`, every tag in front of `t` annotates a sequence `≤ i` -/
+theorem stockholm_roundtrip_gr (pfam : Bool) (abc : Option Abc) (cfg : Cfg) (enc : UInt8 → UInt8) (txt : Nat → Bytes) (m : Msa)
+    (h : StoWritable abc cfg enc txt m) :
+    stockholmRead cfg (splitLines (stockholmWrite pfam abc m)) = (.ok (stoProject cfg m), []) ∧
+    (stoProject cfg m).ss = m.ss ∧ (stoProject cfg m).sa = m.sa ∧ (stoProject cfg m).pp = m.pp ∧ (stoProject cfg m).gr = m.gr :=
+  ⟨stoRead_write pfam abc cfg enc txt m h, rfl, rfl, rfl, rfl⟩
+
+/-- **Stage 4.4 (PARTIAL: everything but the weights): `#=GS` per-sequence annotation**: accessions `sqacc`, descriptions
+    `sqdesc` (each an optional array, per sequence optional) and the unparsed tags `gs`.  They are written in the header, in
+    front of the first block, one kind after the other (`AC`, `DE`, then tag by tag); the reader numbers the sequences in the
+    order it meets their names, so the rows come back in their order only under `gsOrderOk`: the first `#=GS` kind that is
+    written at all is written for EVERY sequence (known finding C03:stockholm:first-mention-order, counter-example
+    `exStoGsBad` below).  Admitted: an array that is present has `nseq` entries, at least one set (`gs_per_ok`, `gs_tag_ok`,
+    `gs_ne`); accessions one token (`gfTokOk`); descriptions free text (`gfTextOk`, may be empty or hold blanks); unparsed tags
+    pairwise distinct tokens other than `WT AC DE` (`gsTagOk`), their values non-empty free text without line feed (a value
+    with line feeds is written as several lines and re-joined: not covered).
+    NOT covered (still excluded by `StoAnn`): weights (`hasw = false`; the reader MODEL keeps of a weight only whether it is
+    set).  Full statement: the same with `hasw` / `m.wgt` arbitrary (`wgt` back up to the value the model does not carry). -/
+theorem stockholm_roundtrip_gs_partial (pfam : Bool) (abc : Option Abc) (cfg : Cfg) (enc : UInt8 → UInt8) (txt : Nat → Bytes) (m : Msa)
+    (h : StoWritable abc cfg enc txt m) :
+    stockholmRead cfg (splitLines (stockholmWrite pfam abc m)) = (.ok (stoProject cfg m), []) ∧
+    (stoProject cfg m).sqacc = m.sqacc ∧ (stoProject cfg m).sqdesc = m.sqdesc ∧ (stoProject cfg m).gs = m.gs ∧
+    (stoProject cfg m).names = m.names :=
+  ⟨stoRead_write pfam abc cfg enc txt m h, rfl, rfl, rfl, rfl⟩
+
+/-- **everything the theorems cover at once** (PARTIAL: all of the annotation except weights, see
+    `stockholm_roundtrip_gs_partial`): names, rows, `#=GC` parsed and unparsed, `#=GF` parsed and unparsed, comments, which
+    cut-offs are set, `#=GR SS SA PP` and unparsed, `#=GS AC DE` and unparsed come back; `stoProject` leaves every one of these
+    fields as it is -/
+theorem stockholm_roundtrip_full_partial (pfam : Bool) (abc : Option Abc) (cfg : Cfg) (enc : UInt8 → UInt8) (txt : Nat → Bytes) (m : Msa)
+    (h : StoWritable abc cfg enc txt m) :
+    stockholmRead cfg (splitLines (stockholmWrite pfam abc m)) = (.ok (stoProject cfg m), []) ∧
+    (stoProject cfg m).names = m.names ∧ (stoProject cfg m).alen = m.alen ∧
+    (stoProject cfg m).name = m.name ∧ (stoProject cfg m).acc = m.acc ∧ (stoProject cfg m).desc = m.desc ∧ (stoProject cfg m).au = m.au ∧
+    (stoProject cfg m).comments = m.comments ∧ (stoProject cfg m).gf = m.gf ∧
+    (stoProject cfg m).ssCons = m.ssCons ∧ (stoProject cfg m).saCons = m.saCons ∧ (stoProject cfg m).ppCons = m.ppCons ∧
+    (stoProject cfg m).rf = m.rf ∧ (stoProject cfg m).mm = m.mm ∧ (stoProject cfg m).gc = m.gc ∧
+    (stoProject cfg m).ss = m.ss ∧ (stoProject cfg m).sa = m.sa ∧ (stoProject cfg m).pp = m.pp ∧ (stoProject cfg m).gr = m.gr ∧
+    (stoProject cfg m).sqacc = m.sqacc ∧ (stoProject cfg m).sqdesc = m.sqdesc ∧ (stoProject cfg m).gs = m.gs ∧
+    (stoProject cfg m).hasw = m.hasw :=
+  ⟨stoRead_write pfam abc cfg enc txt m h, rfl, rfl, rfl, rfl, rfl, rfl, rfl, rfl, rfl, rfl, rfl, rfl, rfl, rfl, rfl, rfl, rfl, rfl, rfl,
+    rfl, rfl, rfl⟩
+
 /-- **re-writing the re-read alignment reproduces the same bytes**, Stockholm and Pfam, general form: for ANY annotation
     (per-sequence `#=GS`/`#=GR` and unparsed tags included) as long as there are no weights and no cut-offs - the two fields
     whose numeric value the reader MODEL does not carry (with them the statement is about `strtod ∘ printf`, which the harness
@@ -447,7 +520,33 @@ def exStoAnn : Msa :=
 theorem exStoAnn_writable : StoTextWritable exStoAnn :=
   { dig := rfl
     ann :=
-      { hasw := rfl, sqacc := rfl, sqdesc := rfl, ss := rfl, sa := rfl, pp := rfl, gs := rfl, gc := rfl, gr := rfl
+      { hasw := rfl
+        gs_tag_ok := fun t ht => by cases ht
+        gs_nodup := List.nodup_nil
+        gs_ne := fun t ht => absurd ht (Nat.not_lt_zero t)
+        gs_per_ok := fun q hq l hl => by
+          rcases q with _ | _ | _ | _
+          · cases hl
+          · cases hl
+          · cases hl
+          · omega
+        gs_order := fun q _ _ hex => by
+          obtain ⟨i, _, hv⟩ := hex
+          rw [grVal_plain (m := gsMsa _) rfl rfl rfl rfl] at hv; cases hv
+        gs_val := fun q i s hs => by rw [grVal_plain (m := gsMsa _) rfl rfl rfl rfl] at hs; cases hs
+        per_ok := fun q hq l hl => by
+          rcases q with _ | _ | _ | _
+          · cases hl
+          · cases hl
+          · cases hl
+          · omega
+        gr_tag_ok := fun t ht => by cases ht
+        gr_nodup := List.nodup_nil
+        gr_ne := fun t ht => absurd ht (Nat.not_lt_zero t)
+        gr_order := fun t ht => absurd ht (Nat.not_lt_zero t)
+        gr_col := fun q i s hs => by rw [grVal_plain rfl rfl rfl rfl] at hs; cases hs
+        gc_ok := fun t ht => by cases ht
+        gc_nodup := List.nodup_nil
         cons_ok := fun k s hs => by
           rcases k with _ | _ | _ | _ | _ | _
           · cases hs; unfold colTextOk; decide +kernel
@@ -487,6 +586,225 @@ example : (stoProject (stockholmCfg none) exStoAnn).cutoff = [some 0, some 0, so
 example : (stockholmLines false none exStoAnn).take 10 =
     [str "# STOCKHOLM 1.0", str "#made by hand", str "#", [], str "#=GF ID id", str "#=GF DE a b", str "#=GF GA 21.0",
      str "#=GF TC 25.0 20.5", str "#=GF CC some text", str "#=GF DR "] := by decide +kernel
+
+/-- 2 sequences, 201 columns (two blocks) with `#=GC RF` and the unparsed tags `#=GC csq` and `#=GC X` -/
+def exStoGc : Msa :=
+  { exSto201 with rf := some (List.replicate 201 120),
+                  gc := [(str "csq", List.replicate 100 97 ++ List.replicate 101 98), (str "X", List.replicate 201 46)] }
+
+theorem exStoGc_writable : StoTextWritable exStoGc :=
+  { dig := rfl
+    ann :=
+      { hasw := rfl
+        gs_tag_ok := fun t ht => by cases ht
+        gs_nodup := List.nodup_nil
+        gs_ne := fun t ht => absurd ht (Nat.not_lt_zero t)
+        gs_per_ok := fun q hq l hl => by
+          rcases q with _ | _ | _ | _
+          · cases hl
+          · cases hl
+          · cases hl
+          · omega
+        gs_order := fun q _ _ hex => by
+          obtain ⟨i, _, hv⟩ := hex
+          rw [grVal_plain (m := gsMsa _) rfl rfl rfl rfl] at hv; cases hv
+        gs_val := fun q i s hs => by rw [grVal_plain (m := gsMsa _) rfl rfl rfl rfl] at hs; cases hs
+        per_ok := fun q hq l hl => by
+          rcases q with _ | _ | _ | _
+          · cases hl
+          · cases hl
+          · cases hl
+          · omega
+        gr_tag_ok := fun t ht => by cases ht
+        gr_nodup := List.nodup_nil
+        gr_ne := fun t ht => absurd ht (Nat.not_lt_zero t)
+        gr_order := fun t ht => absurd ht (Nat.not_lt_zero t)
+        gr_col := fun q i s hs => by rw [grVal_plain rfl rfl rfl rfl] at hs; cases hs
+        gc_ok := by unfold gcTagOk colTextOk nameOk; decide +kernel
+        gc_nodup := by decide +kernel
+        cons_ok := fun k s hs => by
+          rcases k with _ | _ | _ | _ | _ | _
+          · cases hs
+          · cases hs
+          · cases hs
+          · cases hs; unfold colTextOk; decide +kernel
+          · cases hs
+          · cases hs
+        name_ok := fun v hv => by cases hv
+        acc_ok := fun v hv => by cases hv
+        desc_ok := fun v hv => by cases hv
+        au_ok := fun v hv => by cases hv
+        cut_ok := fun k v hv => by have e : exStoGc.cutoff = [] := rfl; rw [e] at hv; simp at hv
+        com_ok := fun c hc => by cases hc
+        gf_ok := fun t ht => by cases ht }
+    n1 := by decide, alen1 := by decide, nodup := by decide
+    name_ok := by unfold stoNameOk nameOk; decide +kernel
+    row_ok := by decide +kernel }
+
+example : stockholmRead (stockholmCfg none) (splitLines (stockholmWrite false none exStoGc))
+    = (.ok (stoProject (stockholmCfg none) exStoGc), []) := by decide +kernel
+example : stoProject (stockholmCfg none) exStoGc = exStoGc := by decide +kernel
+example : (stockholmLines false none exStoGc).drop 2 =
+    [str "s1       " ++ List.replicate 100 65 ++ [45] ++ List.replicate 99 67, str "s2       " ++ List.replicate 200 71,
+     str "#=GC RF  " ++ List.replicate 200 120, str "#=GC csq " ++ List.replicate 100 97 ++ List.replicate 100 98,
+     str "#=GC X   " ++ List.replicate 200 46, [],
+     str "s1       C", str "s2       T", str "#=GC RF  x", str "#=GC csq b", str "#=GC X   .", str "//"] := by decide +kernel
+
+/-- 2 sequences, 201 columns (two blocks): `#=GR SS` on the first sequence only, `#=GR PP` on the second only, the unparsed
+    `#=GR` tags `tA` (both sequences) and `tB` (second sequence only), and `#=GC RF` -/
+def exStoGr : Msa :=
+  { exSto201 with rf := some (List.replicate 201 120),
+                  ss := some [some (List.replicate 100 60 ++ List.replicate 101 62), none],
+                  pp := some [none, some (List.replicate 201 57)],
+                  gr := [(str "tA", [some (List.replicate 201 97), some (List.replicate 200 98 ++ [99])]),
+                         (str "tB", [none, some (List.replicate 201 100)])] }
+
+theorem exStoGr_writable : StoTextWritable exStoGr :=
+  { dig := rfl
+    ann :=
+      { hasw := rfl
+        gs_tag_ok := fun t ht => by cases ht
+        gs_nodup := List.nodup_nil
+        gs_ne := fun t ht => absurd ht (Nat.not_lt_zero t)
+        gs_per_ok := fun q hq l hl => by
+          rcases q with _ | _ | _ | _
+          · cases hl
+          · cases hl
+          · cases hl
+          · omega
+        gs_order := fun q _ _ hex => by
+          obtain ⟨i, _, hv⟩ := hex
+          rw [grVal_plain (m := gsMsa _) rfl rfl rfl rfl] at hv; cases hv
+        gs_val := fun q i s hs => by rw [grVal_plain (m := gsMsa _) rfl rfl rfl rfl] at hs; cases hs
+        per_ok := fun q hq l hl => by
+          rcases q with _ | _ | _ | _
+          · cases hl; exact ⟨rfl, 0, by decide, rfl⟩
+          · cases hl
+          · cases hl; exact ⟨rfl, 1, by decide, rfl⟩
+          · omega
+        gr_tag_ok := by unfold grTagOk nameOk; decide +kernel
+        gr_nodup := by decide +kernel
+        gr_ne := by decide +kernel
+        gr_order := by unfold grOrderOk; decide +kernel
+        gr_col := fun q i s hs => by
+          rcases q with _ | _ | _ | _ | _ | q <;> rcases i with _ | _ | i <;>
+            first
+            | (cases hs; unfold colTextOk; decide +kernel)
+            | cases hs
+        gc_ok := fun t ht => by cases ht
+        gc_nodup := List.nodup_nil
+        cons_ok := fun k s hs => by
+          rcases k with _ | _ | _ | _ | _ | _
+          · cases hs
+          · cases hs
+          · cases hs
+          · cases hs; unfold colTextOk; decide +kernel
+          · cases hs
+          · cases hs
+        name_ok := fun v hv => by cases hv
+        acc_ok := fun v hv => by cases hv
+        desc_ok := fun v hv => by cases hv
+        au_ok := fun v hv => by cases hv
+        cut_ok := fun k v hv => by have e : exStoGr.cutoff = [] := rfl; rw [e] at hv; simp at hv
+        com_ok := fun c hc => by cases hc
+        gf_ok := fun t ht => by cases ht }
+    n1 := by decide, alen1 := by decide, nodup := by decide
+    name_ok := by unfold stoNameOk nameOk; decide +kernel
+    row_ok := by decide +kernel }
+
+example : stockholmRead (stockholmCfg none) (splitLines (stockholmWrite false none exStoGr))
+    = (.ok (stoProject (stockholmCfg none) exStoGr), []) := by decide +kernel
+example : stoProject (stockholmCfg none) exStoGr = exStoGr := by decide +kernel
+example : (stockholmLines false none exStoGr).map (·.take 14) =
+    [str "# STOCKHOLM 1.", [], str "s1         AAA", str "#=GR s1 SS <<<", str "#=GR s1 tA aaa", str "s2         GGG",
+     str "#=GR s2 PP 999", str "#=GR s2 tA bbb", str "#=GR s2 tB ddd", str "#=GC RF    xxx", [], str "s1         C",
+     str "#=GR s1 SS >", str "#=GR s1 tA a", str "s2         T", str "#=GR s2 PP 9", str "#=GR s2 tA c", str "#=GR s2 tB d",
+     str "#=GC RF    x", str "//"] := by decide +kernel
+
+/-- the hypothesis `grOrderOk` is needed too: `m.gr = [tA, tB]`, but `tB` annotates the first sequence and `tA` only the second;
+    the reader meets `tB` first and returns the tags in the order `[tB, tA]` -/
+def exStoGrBad : Msa :=
+  { exSto with gr := [(str "tA", [none, some (str "11111")]), (str "tB", [some (str "22222"), none])] }
+
+example : ¬ grOrderOk exStoGrBad := by unfold grOrderOk; decide +kernel
+example : stockholmRead (stockholmCfg none) (splitLines (stockholmWrite true none exStoGrBad))
+    = (.ok { stoProject (stockholmCfg none) exStoGrBad with
+               gr := [(str "tB", [some (str "22222"), none]), (str "tA", [none, some (str "11111")])] }, []) := by decide +kernel
+example : stockholmRead (stockholmCfg none) (splitLines (stockholmWrite true none exStoGrBad))
+    ≠ (.ok (stoProject (stockholmCfg none) exStoGrBad), []) := by decide +kernel
+
+/-- 2 sequences, 201 columns: `#=GS … AC` for both sequences (the first `#=GS` kind written covers every sequence), `#=GS … DE`
+    for the second only ("a b", with a blank inside), the unparsed tags `OS` (both sequences) and `DR` (second only) -/
+def exStoGs : Msa :=
+  { exSto201 with sqacc := some [some (str "P1"), some (str "Q2.1")], sqdesc := some [none, some (str "a b")],
+                  gs := [(str "OS", [some (str "Homo sapiens"), some (str "Mus")]), (str "DR", [none, some (str "PDB; 1abc")])] }
+
+theorem exStoGs_writable : StoTextWritable exStoGs :=
+  { dig := rfl
+    ann :=
+      { hasw := rfl
+        gs_tag_ok := by unfold gsTagOk nameOk; decide +kernel
+        gs_nodup := by decide +kernel
+        gs_ne := by decide +kernel
+        gs_per_ok := fun q hq l hl => by
+          rcases q with _ | _ | _ | _
+          · cases hl; exact ⟨rfl, 0, by decide, rfl⟩
+          · cases hl; exact ⟨rfl, 1, by decide, rfl⟩
+          · cases hl
+          · omega
+        gs_order := by unfold gsOrderOk; decide +kernel
+        gs_val := fun q i s hs => by
+          rcases q with _ | _ | _ | _ | _ | q <;> rcases i with _ | _ | i <;>
+            first
+            | (cases hs; unfold gfTokOk gfTextOk nameOk; decide +kernel)
+            | cases hs
+        per_ok := fun q hq l hl => by
+          rcases q with _ | _ | _ | _
+          · cases hl
+          · cases hl
+          · cases hl
+          · omega
+        gr_tag_ok := fun t ht => by cases ht
+        gr_nodup := List.nodup_nil
+        gr_ne := fun t ht => absurd ht (Nat.not_lt_zero t)
+        gr_order := fun t ht => absurd ht (Nat.not_lt_zero t)
+        gr_col := fun q i s hs => by rw [grVal_plain rfl rfl rfl rfl] at hs; cases hs
+        gc_ok := fun t ht => by cases ht
+        gc_nodup := List.nodup_nil
+        cons_ok := fun k s hs => by
+          rcases k with _ | _ | _ | _ | _ | _ <;> cases hs
+        name_ok := fun v hv => by cases hv
+        acc_ok := fun v hv => by cases hv
+        desc_ok := fun v hv => by cases hv
+        au_ok := fun v hv => by cases hv
+        cut_ok := fun k v hv => by have e : exStoGs.cutoff = [] := rfl; rw [e] at hv; simp at hv
+        com_ok := fun c hc => by cases hc
+        gf_ok := fun t ht => by cases ht }
+    n1 := by decide, alen1 := by decide, nodup := by decide
+    name_ok := by unfold stoNameOk nameOk; decide +kernel
+    row_ok := by decide +kernel }
+
+example : stockholmRead (stockholmCfg none) (splitLines (stockholmWrite false none exStoGs))
+    = (.ok (stoProject (stockholmCfg none) exStoGs), []) := by decide +kernel
+example : stoProject (stockholmCfg none) exStoGs = exStoGs := by decide +kernel
+example : (stockholmLines false none exStoGs).take 12 =
+    [str "# STOCKHOLM 1.0", [], str "#=GS s1 AC P1", str "#=GS s2 AC Q2.1", [], str "#=GS s2 DE a b", [],
+     str "#=GS s1 OS Homo sapiens", str "#=GS s2 OS Mus", [], str "#=GS s2 DR PDB; 1abc", []] := by decide +kernel
+
+/-- known finding C03:stockholm:first-mention-order: only the SECOND sequence has a `#=GS … AC` line; the reader meets `bb` first
+    (in the `#=GS` section) and numbers it 0: the alignment comes back with its sequences in another order -/
+def exStoGsBad : Msa := { exSto with sqacc := some [none, some (str "X1")] }
+
+example : stockholmLines true none exStoGsBad =
+    [str "# STOCKHOLM 1.0", [], str "#=GS bb AC X1", [], str "a  AC-GT", str "bb ACGTT", str "//"] := by decide +kernel
+example : stockholmRead (stockholmCfg none) (splitLines (stockholmWrite true none exStoGsBad))
+    = (.ok { stoProject (stockholmCfg none) exStoGsBad with
+               names := [[98, 98], [97]], aseq := [[65, 67, 71, 84, 84], [65, 67, 45, 71, 84]], sqacc := some [some (str "X1"), none] }, []) := by
+  decide +kernel
+example : stockholmRead (stockholmCfg none) (splitLines (stockholmWrite true none exStoGsBad))
+    ≠ (.ok (stoProject (stockholmCfg none) exStoGsBad), []) := by decide +kernel
+/-- … and it is exactly `gsOrderOk` that this alignment violates -/
+example : ¬ gsOrderOk exStoGsBad := by unfold gsOrderOk; decide +kernel
 
 /-- re-writing: the annotated example without its cut-offs gives the same bytes; with them the MODEL's re-read alignment has
     lost the values (the real library has not: the harness compares `rw=same` on every case) -/
@@ -1515,6 +1833,380 @@ example : psiblastWrite (some abcDna) (psiblastProject (psiblastCfg (some abcDna
     = psiblastWrite (some abcDna) exPsiDna := by decide +kernel
 
 /-! ## ===== PSI-DIGITAL — end ===== -/
+
+/-! ## ===== READ-DOMAIN — begin ===== -/
+
+/-! "Reformat stability": what a READER returns lies in the domain of the WRITER's round-trip theorem, so the round trip
+applies to every alignment that was read from a file.  Where the reader does not guarantee a condition, the weakest
+explicit extra hypothesis is stated (a decidable predicate on the alignment read) and a counterexample shows it is needed.
+
+### A2M
+
+`esl_msafile_a2m_Read` guarantees everything `A2mInsTextWritable` / `A2mInsDigitalWritable a` ask (≥ 1 sequence, names
+without blank/tab/NUL, descriptions not empty / not starting with blank or tab / without NUL, no accessions, rows of `alen`
+symbols / well-formed digital rows) EXCEPT `hdr_line`: the name line `>name desc` the writer will print must not end in CR
+(it never holds a LF when the input lines come from `splitLines`).  `a2mHdrOkB m` is that condition.  It fails when the input
+name line ends in CR CR LF (`esl_buffer_GetLine` strips one CR; the second stays in the description), or holds a NUL right
+after a CR (the description is cut at the NUL): the re-written file then ends that line in CR LF and the re-read description
+has lost its CR (`exA2mCrIn`, `exA2mNulIn` below). -/
+
+theorem a2mCfg_valid_of (a : Abc) (ha : a = abcAmino ∨ a = abcDna ∨ a = abcRna) :
+    (a2mCfg (some a)).valid ∧ A2mValid (a2mCfg (some a)) := by
+  rcases ha with h | h | h <;> subst h
+  · exact ⟨⟨by decide +kernel, by decide +kernel⟩, ⟨by decide +kernel, by decide +kernel⟩⟩
+  · exact ⟨⟨by decide +kernel, by decide +kernel⟩, ⟨by decide +kernel, by decide +kernel⟩⟩
+  · exact ⟨⟨by decide +kernel, by decide +kernel⟩, ⟨by decide +kernel, by decide +kernel⟩⟩
+
+/-- what the A2M reader returns (text mode) is in the domain of the A2M round trip, provided its name lines survive -/
+theorem a2m_read_in_domain_text (lines : List Bytes) (m : Msa) (rest : List Bytes)
+    (h : a2mRead (a2mCfg none) lines = (.ok m, rest)) (hh : a2mHdrOkB m = true) : A2mInsTextWritable m :=
+  a2mRead_domain_text lines m rest h hh
+
+/-- … digital mode (amino, DNA, RNA) -/
+theorem a2m_read_in_domain_digital (a : Abc) (ha : a = abcAmino ∨ a = abcDna ∨ a = abcRna) (lines : List Bytes) (m : Msa)
+    (rest : List Bytes) (h : a2mRead (a2mCfg (some a)) lines = (.ok m, rest)) (hh : a2mHdrOkB m = true) :
+    A2mInsDigitalWritable a m :=
+  a2mRead_domain_digital a (a2mCfg_valid_of a ha).1 (a2mCfg_valid_of a ha).2 lines m rest h hh
+
+/-- **A2M reformat stability, text mode**: an alignment read from any A2M input, written and read again, is its projection -/
+theorem a2m_reformat_stable_text (lines : List Bytes) (m : Msa) (rest : List Bytes)
+    (h : a2mRead (a2mCfg none) lines = (.ok m, rest)) (hh : a2mHdrOkB m = true) :
+    a2mRead (a2mCfg none) (splitLines (a2mWrite none m)) = (.ok (a2mProjectIns none (a2mCfg none) id m), []) :=
+  a2m_roundtrip_ins_text m (a2m_read_in_domain_text lines m rest h hh)
+
+/-- **A2M reformat stability, digital mode** -/
+theorem a2m_reformat_stable_digital (a : Abc) (ha : a = abcAmino ∨ a = abcDna ∨ a = abcRna) (lines : List Bytes) (m : Msa)
+    (rest : List Bytes) (h : a2mRead (a2mCfg (some a)) lines = (.ok m, rest)) (hh : a2mHdrOkB m = true) :
+    a2mRead (a2mCfg (some a)) (splitLines (a2mWrite (some a) m))
+      = (.ok (a2mProjectIns (some a) (a2mCfg (some a)) (a2mEnc a) m), []) :=
+  a2m_roundtrip_ins_digital a ha m (a2m_read_in_domain_digital a ha lines m rest h hh)
+
+/-- … and re-writing that gives the same bytes again: `write (read (write (read input))) = write (read input)` -/
+theorem a2m_reformat_idempotent_text (lines : List Bytes) (m : Msa) (rest : List Bytes)
+    (h : a2mRead (a2mCfg none) lines = (.ok m, rest)) (hh : a2mHdrOkB m = true) :
+    ∃ m', (a2mRead (a2mCfg none) (splitLines (a2mWrite none m))).1 = .ok m' ∧ a2mWrite none m' = a2mWrite none m :=
+  a2m_ins_rewrite_same_text m (a2m_read_in_domain_text lines m rest h hh)
+
+/-- non-vacuity: a dotted A2M input with inserts, `>s1 d e` / `AC.gT` / `>s2` / `A-cg` + `T` -/
+def exA2mIn : Bytes := [62, 115, 49, 32, 100, 32, 101, 10, 65, 67, 46, 103, 84, 10, 62, 115, 50, 10, 65, 45, 99, 103, 10, 84, 10]
+
+def exA2mInMsa : Msa :=
+  { alen := 5, names := [[115, 49], [115, 50]], aseq := [[65, 67, 103, 46, 84], [65, 45, 99, 103, 84]], wgt := [.dflt, .dflt],
+    rf := some [120, 120, 46, 46, 120], sqdesc := some [some [100, 32, 101], none] }
+
+example : a2mRead (a2mCfg none) (splitLines exA2mIn) = (.ok exA2mInMsa, []) := by decide +kernel
+example : a2mHdrOkB exA2mInMsa = true := by decide +kernel
+example : a2mRead (a2mCfg none) (splitLines (a2mWrite none exA2mInMsa)) = (.ok exA2mInMsa, []) := by decide +kernel
+example : A2mInsTextWritable exA2mInMsa :=
+  a2m_read_in_domain_text (splitLines exA2mIn) exA2mInMsa [] (by decide +kernel) (by decide +kernel)
+
+/-- COUNTEREXAMPLE (the hypothesis `a2mHdrOkB` is needed): `>a x` CR CR LF `AC` LF is read with description `x` CR; it is
+    written as `>a x` CR LF `AC` LF, which reads back with description `x` -/
+def exA2mCrIn : Bytes := [62, 97, 32, 120, 13, 13, 10, 65, 67, 10]
+
+def exA2mCrMsa : Msa :=
+  { alen := 2, names := [[97]], aseq := [[65, 67]], wgt := [.dflt], rf := some [120, 120], sqdesc := some [some [120, 13]] }
+
+example : a2mRead (a2mCfg none) (splitLines exA2mCrIn) = (.ok exA2mCrMsa, []) := by decide +kernel
+example : a2mHdrOkB exA2mCrMsa = false := by decide +kernel
+example : a2mWrite none exA2mCrMsa = [62, 97, 32, 120, 13, 10, 65, 67, 10] := by decide +kernel
+example : a2mRead (a2mCfg none) (splitLines (a2mWrite none exA2mCrMsa))
+    = (.ok { exA2mCrMsa with sqdesc := some [some [120]] }, []) := by decide +kernel
+example : a2mRead (a2mCfg none) (splitLines (a2mWrite none exA2mCrMsa))
+    ≠ (.ok (a2mProjectIns none (a2mCfg none) id exA2mCrMsa), []) := by decide +kernel
+
+/-- COUNTEREXAMPLE 2: `>a x` CR NUL `y` LF `AC` LF: the description is cut at the NUL and ends in CR, same effect -/
+def exA2mNulIn : Bytes := [62, 97, 32, 120, 13, 0, 121, 10, 65, 67, 10]
+
+example : a2mRead (a2mCfg none) (splitLines exA2mNulIn) = (.ok exA2mCrMsa, []) := by decide +kernel
+
+/-! ### aligned FASTA
+
+`esl_msafile_afa_Read` guarantees everything `AfaDigitalWritable a` asks except `hdr_line` (`afaHdrOkB`, as for A2M: a
+description ending in CR).  In TEXT mode it guarantees everything `AfaTextWritable` asks (rows of graphic characters, `alen` ≥ 1)
+except `hdr_line` and "no residue is `>`" (`afaNoGtB`): the text-mode input map accepts `>` as a residue when it is not the
+first character of its line, and the writer, cutting rows into 60-column lines, can put it first: `exAfaGtIn` below is read as
+ONE sequence of 61 residues and written as a file the reader REJECTS ("no name found for aligned FASTA record").
+(A `>` that does not land at a multiple of 60 is harmless, but the round-trip theorem `afa_roundtrip_text` excludes `>` anywhere.) -/
+
+theorem afaCfg_valid_of (a : Abc) (ha : a = abcAmino ∨ a = abcDna ∨ a = abcRna) : (afaCfg (some a)).valid := by
+  rcases ha with h | h | h <;> subst h
+  · exact ⟨by decide +kernel, by decide +kernel⟩
+  · exact ⟨by decide +kernel, by decide +kernel⟩
+  · exact ⟨by decide +kernel, by decide +kernel⟩
+
+/-- what the AFA reader returns (digital mode) is in the domain of the AFA round trip, provided its name lines survive -/
+theorem afa_read_in_domain_digital (a : Abc) (ha : a = abcAmino ∨ a = abcDna ∨ a = abcRna) (lines : List Bytes) (m : Msa)
+    (rest : List Bytes) (h : afaRead (afaCfg (some a)) lines = (.ok m, rest)) (hh : afaHdrOkB m = true) :
+    AfaDigitalWritable a m :=
+  afaRead_domain_digital a (afaCfg_valid_of a ha) lines m rest h hh
+
+/-- … text mode: also no residue may be `>` -/
+theorem afa_read_in_domain_text (lines : List Bytes) (m : Msa) (rest : List Bytes)
+    (h : afaRead (afaCfg none) lines = (.ok m, rest)) (hh : afaHdrOkB m = true) (hgt : afaNoGtB m = true) : AfaTextWritable m :=
+  afaRead_domain_text lines m rest h hh hgt
+
+/-- **AFA reformat stability, digital mode** -/
+theorem afa_reformat_stable_digital (a : Abc) (ha : a = abcAmino ∨ a = abcDna ∨ a = abcRna) (lines : List Bytes) (m : Msa)
+    (rest : List Bytes) (h : afaRead (afaCfg (some a)) lines = (.ok m, rest)) (hh : afaHdrOkB m = true) :
+    afaRead (afaCfg (some a)) (splitLines (afaWrite (some a) m)) = (.ok (afaProject (afaCfg (some a)) m), []) :=
+  afa_roundtrip_digital a ha m (afa_read_in_domain_digital a ha lines m rest h hh)
+
+/-- **AFA reformat stability, text mode** -/
+theorem afa_reformat_stable_text (lines : List Bytes) (m : Msa) (rest : List Bytes)
+    (h : afaRead (afaCfg none) lines = (.ok m, rest)) (hh : afaHdrOkB m = true) (hgt : afaNoGtB m = true) :
+    afaRead (afaCfg none) (splitLines (afaWrite none m)) = (.ok (afaProject (afaCfg none) m), []) :=
+  afa_roundtrip_text m (afa_read_in_domain_text lines m rest h hh hgt)
+
+/-- non-vacuity: `>s1 d e` / `AC-` + `gt` / `>s2` / `A.CGT` -/
+def exAfaIn : Bytes := [62, 115, 49, 32, 100, 32, 101, 10, 65, 67, 45, 10, 103, 116, 10, 62, 115, 50, 10, 65, 46, 67, 71, 84, 10]
+
+def exAfaInMsa : Msa :=
+  { alen := 5, names := [[115, 49], [115, 50]], aseq := [[65, 67, 45, 103, 116], [65, 46, 67, 71, 84]], wgt := [.dflt, .dflt],
+    sqdesc := some [some [100, 32, 101], none] }
+
+example : afaRead (afaCfg none) (splitLines exAfaIn) = (.ok exAfaInMsa, []) := by decide +kernel
+example : afaHdrOkB exAfaInMsa = true ∧ afaNoGtB exAfaInMsa = true := by decide +kernel
+example : afaRead (afaCfg none) (splitLines (afaWrite none exAfaInMsa)) = (.ok exAfaInMsa, []) := by decide +kernel
+example : AfaTextWritable exAfaInMsa :=
+  afa_read_in_domain_text (splitLines exAfaIn) exAfaInMsa [] (by decide +kernel) (by decide +kernel) (by decide +kernel)
+
+/-- digital (DNA) non-vacuity: `>s1` / `ACGT` / `>s2` / `A-NT` -/
+def exAfaDnaIn : Bytes := [62, 115, 49, 10, 65, 67, 71, 84, 10, 62, 115, 50, 10, 65, 45, 78, 84, 10]
+
+def exAfaDnaInMsa : Msa :=
+  { digital := true, kp := 18, alen := 4, names := [[115, 49], [115, 50]],
+    ax := [[255, 0, 1, 2, 3, 255], [255, 0, 4, 15, 3, 255]], wgt := [.dflt, .dflt] }
+
+example : afaRead (afaCfg (some abcDna)) (splitLines exAfaDnaIn) = (.ok exAfaDnaInMsa, []) := by decide +kernel
+example : AfaDigitalWritable abcDna exAfaDnaInMsa :=
+  afa_read_in_domain_digital abcDna (Or.inr (Or.inl rfl)) (splitLines exAfaDnaIn) exAfaDnaInMsa [] (by decide +kernel)
+    (by decide +kernel)
+example : afaRead (afaCfg (some abcDna)) (splitLines (afaWrite (some abcDna) exAfaDnaInMsa)) = (.ok exAfaDnaInMsa, []) := by
+  decide +kernel
+
+/-- COUNTEREXAMPLE (text mode, `afaNoGtB` is needed): `>a` LF, then ONE line of 60 `A` followed by `>` -/
+def exAfaGtIn : Bytes := [62, 97, 10] ++ List.replicate 60 65 ++ [62, 10]
+
+def exAfaGtMsa : Msa := { alen := 61, names := [[97]], aseq := [List.replicate 60 65 ++ [62]], wgt := [.dflt] }
+
+example : afaRead (afaCfg none) (splitLines exAfaGtIn) = (.ok exAfaGtMsa, []) := by decide +kernel
+example : afaHdrOkB exAfaGtMsa = true ∧ afaNoGtB exAfaGtMsa = false := by decide +kernel
+/-- the writer cuts the row after 60 columns: the `>` starts the third line -/
+example : afaWrite none exAfaGtMsa = [62, 97, 10] ++ List.replicate 60 65 ++ [10, 62, 10] := by decide +kernel
+/-- … and the reader rejects that file -/
+example : (match (afaRead (afaCfg none) (splitLines (afaWrite none exAfaGtMsa))).1 with
+           | .eformat _ => true
+           | _ => false) = true := by decide +kernel
+
+/-- COUNTEREXAMPLE (`afaHdrOkB` is needed): `>a x` CR CR LF `AC` LF: the description `x` CR comes back as `x` -/
+def exAfaCrIn : Bytes := [62, 97, 32, 120, 13, 13, 10, 65, 67, 10]
+
+def exAfaCrMsa : Msa := { alen := 2, names := [[97]], aseq := [[65, 67]], wgt := [.dflt], sqdesc := some [some [120, 13]] }
+
+example : afaRead (afaCfg none) (splitLines exAfaCrIn) = (.ok exAfaCrMsa, []) := by decide +kernel
+example : afaHdrOkB exAfaCrMsa = false := by decide +kernel
+example : afaRead (afaCfg none) (splitLines (afaWrite none exAfaCrMsa))
+    = (.ok { exAfaCrMsa with sqdesc := some [some [120]] }, []) := by decide +kernel
+
+/-! ### Clustal / Clustal-like
+
+`esl_msafile_clustal_Read` guarantees `n1`, `alen1` (every block has ≥ 1 column), names without white space or NUL, rows of
+`alen` graphic characters / well-formed digital rows.  It does NOT guarantee
+* that a name is not EMPTY (`cluNamesNeB`): a name field that starts with a NUL byte is stored as the empty C string; the
+  writer then prints a line that starts with blanks and the reader rejects it ("invalid alignment line"): `exCluNulIn`;
+* `notcons` (`cluNotConsTextB` / `cluNotConsDigB a`): a row after the first whose name is made of `.:*` characters and whose
+  residues include one of `.:*` can, once the writer cuts the alignment into 60-column blocks, stand alone as a line made of
+  `" .:*"` only, which the reader takes for the consensus line: `exCluConsIn` (re-read REJECTED: "last block didn't contain
+  same # of seqs as earlier blocks"). -/
+
+theorem clustalCfg_valid_of (a : Abc) (ha : a = abcAmino ∨ a = abcDna ∨ a = abcRna) : (clustalCfg (some a)).valid := by
+  rcases ha with h | h | h <;> subst h
+  · exact ⟨by decide +kernel, by decide +kernel⟩
+  · exact ⟨by decide +kernel, by decide +kernel⟩
+  · exact ⟨by decide +kernel, by decide +kernel⟩
+
+theorem clustal_read_in_domain_text (like : Bool) (lines : List Bytes) (m : Msa) (rest : List Bytes)
+    (h : clustalRead like (clustalCfg none) lines = (.ok m, rest)) (hne : cluNamesNeB m = true) (hnc : cluNotConsTextB m = true) :
+    ClustalTextWritable m :=
+  clustalRead_domain_text like lines m rest h hne hnc
+
+theorem clustal_read_in_domain_digital (like : Bool) (a : Abc) (ha : a = abcAmino ∨ a = abcDna ∨ a = abcRna) (lines : List Bytes)
+    (m : Msa) (rest : List Bytes) (h : clustalRead like (clustalCfg (some a)) lines = (.ok m, rest)) (hne : cluNamesNeB m = true)
+    (hnc : cluNotConsDigB a m = true) : ClustalDigitalWritable a m :=
+  clustalRead_domain_digital like a (clustalCfg_valid_of a ha) lines m rest h hne hnc
+
+/-- **Clustal reformat stability, text mode** (read as Clustal or Clustal-like `like`, written as `like'`) -/
+theorem clustal_reformat_stable_text (like like' : Bool) (lines : List Bytes) (m : Msa) (rest : List Bytes)
+    (h : clustalRead like (clustalCfg none) lines = (.ok m, rest)) (hne : cluNamesNeB m = true) (hnc : cluNotConsTextB m = true) :
+    clustalRead like' (clustalCfg none) (splitLines (clustalWrite like' none m)) = (.ok (clustalProject (clustalCfg none) m), []) :=
+  clustal_roundtrip_text like' m (clustal_read_in_domain_text like lines m rest h hne hnc)
+
+/-- **Clustal reformat stability, digital mode** -/
+theorem clustal_reformat_stable_digital (like like' : Bool) (a : Abc) (ha : a = abcAmino ∨ a = abcDna ∨ a = abcRna)
+    (lines : List Bytes) (m : Msa) (rest : List Bytes) (h : clustalRead like (clustalCfg (some a)) lines = (.ok m, rest))
+    (hne : cluNamesNeB m = true) (hnc : cluNotConsDigB a m = true) :
+    clustalRead like' (clustalCfg (some a)) (splitLines (clustalWrite like' (some a) m))
+      = (.ok (clustalProject (clustalCfg (some a)) m), []) :=
+  clustal_roundtrip_digital like' a ha m (clustal_read_in_domain_digital like a ha lines m rest h hne hnc)
+
+/-- `CLUSTAL W alignment` -/
+def exCluHdr : Bytes := [67, 76, 85, 83, 84, 65, 76, 32, 87, 32, 97, 108, 105, 103, 110, 109, 101, 110, 116]
+
+/-- non-vacuity: header, blank, `s1 ACG-`, `s2 A.gT`, ` *  *` -/
+def exCluIn : Bytes :=
+  exCluHdr ++ [10, 10] ++ [115, 49, 32, 65, 67, 71, 45, 10] ++ [115, 50, 32, 65, 46, 103, 84, 10] ++ [32, 32, 32, 42, 32, 32, 42, 10]
+
+def exCluInMsa : Msa :=
+  { alen := 4, names := [[115, 49], [115, 50]], aseq := [[65, 67, 71, 45], [65, 46, 103, 84]], wgt := [.dflt, .dflt] }
+
+example : clustalRead false (clustalCfg none) (splitLines exCluIn) = (.ok exCluInMsa, []) := by decide +kernel
+example : cluNamesNeB exCluInMsa = true ∧ cluNotConsTextB exCluInMsa = true := by decide +kernel
+example : ClustalTextWritable exCluInMsa :=
+  clustal_read_in_domain_text false (splitLines exCluIn) exCluInMsa [] (by decide +kernel) (by decide +kernel) (by decide +kernel)
+example : clustalRead false (clustalCfg none) (splitLines (clustalWrite false none exCluInMsa)) = (.ok exCluInMsa, []) := by
+  decide +kernel
+
+/-- COUNTEREXAMPLE (`cluNamesNeB` is needed): the name field of the row is NUL `x` -/
+def exCluNulIn : Bytes := exCluHdr ++ [10, 10] ++ [0, 120, 32, 65, 67, 71, 84, 10] ++ [32, 32, 32, 42, 42, 42, 42, 10]
+
+def exCluNulMsa : Msa := { alen := 4, names := [[]], aseq := [[65, 67, 71, 84]], wgt := [.dflt] }
+
+example : clustalRead false (clustalCfg none) (splitLines exCluNulIn) = (.ok exCluNulMsa, []) := by decide +kernel
+example : cluNamesNeB exCluNulMsa = false := by decide +kernel
+example : (match (clustalRead false (clustalCfg none) (splitLines (clustalWrite false none exCluNulMsa))).1 with
+           | .eformat _ => true
+           | _ => false) = true := by decide +kernel
+
+/-- COUNTEREXAMPLE (`cluNotConsTextB` is needed): rows `x` = 61 `A`, `*` = 60 `A` then `*`, in ONE block of 61 columns -/
+def exCluConsIn : Bytes :=
+  exCluHdr ++ [10, 10] ++ ([120, 32] ++ List.replicate 61 65 ++ [10]) ++ ([42, 32] ++ List.replicate 60 65 ++ [42, 10]) ++ [32, 10]
+
+def exCluConsMsa : Msa :=
+  { alen := 61, names := [[120], [42]], aseq := [List.replicate 61 65, List.replicate 60 65 ++ [42]], wgt := [.dflt, .dflt] }
+
+example : clustalRead false (clustalCfg none) (splitLines exCluConsIn) = (.ok exCluConsMsa, []) := by decide +kernel
+example : cluNamesNeB exCluConsMsa = true ∧ cluNotConsTextB exCluConsMsa = false := by decide +kernel
+/-- written in two blocks; the second row of the second block is `*` + blanks + `*` -/
+example : (match (clustalRead false (clustalCfg none) (splitLines (clustalWrite false none exCluConsMsa))).1 with
+           | .eformat _ => true
+           | _ => false) = true := by decide +kernel
+
+/-! ### PSI-BLAST
+
+`esl_msafile_psiblast_Read` guarantees `n1`, `alen1`, names without white space or NUL, rows of `alen` symbols / well-formed
+digital rows.  The domain of `psiblast_roundtrip_text/_digital` is the set of alignments on which the WRITER IS THE IDENTITY,
+which is much narrower than what the reader returns; the missing conditions are hypotheses:
+* `cluNamesNeB`: no empty name (a name field starting with NUL; re-read REJECTED, `exPsiNulIn`);
+* `psiRowsUpperB` / `psiRowsDigB a`: no lower-case (insert) residue.  NOT a defect: an input with lower-case residues is
+  reformatted faithfully on the model (`exPsiLowerIn`: read ∘ write ∘ read = read), but no round-trip theorem covers it yet;
+* `psiColsOkB` / `psiColsOkDigB a`: the `rf` line the reader builds marks (`x`) every column that holds a residue.  This is
+  believed to follow from the reader's `rf` loop when there is no lower-case residue, but is NOT proved here. -/
+
+theorem psiblastCfg_valid_of (a : Abc) (ha : a = abcAmino ∨ a = abcDna ∨ a = abcRna) : (psiblastCfg (some a)).valid := by
+  rcases ha with h | h | h <;> subst h
+  · exact ⟨by decide +kernel, by decide +kernel⟩
+  · exact ⟨by decide +kernel, by decide +kernel⟩
+  · exact ⟨by decide +kernel, by decide +kernel⟩
+
+theorem psiblast_read_in_domain_text (lines : List Bytes) (m : Msa) (rest : List Bytes)
+    (h : psiblastRead (psiblastCfg none) lines = (.ok m, rest)) (hne : cluNamesNeB m = true) (hup : psiRowsUpperB m = true)
+    (hcol : psiColsOkB m = true) : PsiblastTextWritable m :=
+  psiblastRead_domain_text lines m rest h hne hup hcol
+
+theorem psiblast_read_in_domain_digital (a : Abc) (ha : a = abcAmino ∨ a = abcDna ∨ a = abcRna) (lines : List Bytes) (m : Msa)
+    (rest : List Bytes) (h : psiblastRead (psiblastCfg (some a)) lines = (.ok m, rest)) (hne : cluNamesNeB m = true)
+    (hup : psiRowsDigB a m = true) (hcol : psiColsOkDigB a m = true) : PsiblastDigitalWritable a m :=
+  psiblastRead_domain_digital a (psiblastCfg_valid_of a ha) lines m rest h hne hup hcol
+
+/-- **PSI-BLAST reformat stability, text mode** (PARTIAL: under the three hypotheses above) -/
+theorem psiblast_reformat_stable_text_partial (lines : List Bytes) (m : Msa) (rest : List Bytes)
+    (h : psiblastRead (psiblastCfg none) lines = (.ok m, rest)) (hne : cluNamesNeB m = true) (hup : psiRowsUpperB m = true)
+    (hcol : psiColsOkB m = true) :
+    psiblastRead (psiblastCfg none) (splitLines (psiblastWrite none m))
+      = (.ok (psiblastProject (psiblastCfg none) (psiRf (fun i => m.aseq.getD i []) m) m), []) :=
+  psiblast_roundtrip_text m (psiblast_read_in_domain_text lines m rest h hne hup hcol)
+
+/-- **PSI-BLAST reformat stability, digital mode** (PARTIAL likewise) -/
+theorem psiblast_reformat_stable_digital_partial (a : Abc) (ha : a = abcAmino ∨ a = abcDna ∨ a = abcRna) (lines : List Bytes)
+    (m : Msa) (rest : List Bytes) (h : psiblastRead (psiblastCfg (some a)) lines = (.ok m, rest)) (hne : cluNamesNeB m = true)
+    (hup : psiRowsDigB a m = true) (hcol : psiColsOkDigB a m = true) :
+    psiblastRead (psiblastCfg (some a)) (splitLines (psiblastWrite (some a) m))
+      = (.ok (psiblastProject (psiblastCfg (some a)) (psiRf (psiDigTxt a m) m) m), []) :=
+  psiblast_roundtrip_digital a ha m (psiblast_read_in_domain_digital a ha lines m rest h hne hup hcol)
+
+/-- non-vacuity: `s1 ACG-` / `s2 A-GT` -/
+def exPsiIn : Bytes := [115, 49, 32, 65, 67, 71, 45, 10, 115, 50, 32, 65, 45, 71, 84, 10]
+
+def exPsiInMsa : Msa :=
+  { alen := 4, names := [[115, 49], [115, 50]], aseq := [[65, 67, 71, 45], [65, 45, 71, 84]], wgt := [.dflt, .dflt],
+    rf := some [120, 120, 120, 120] }
+
+example : psiblastRead (psiblastCfg none) (splitLines exPsiIn) = (.ok exPsiInMsa, []) := by decide +kernel
+example : cluNamesNeB exPsiInMsa = true ∧ psiRowsUpperB exPsiInMsa = true ∧ psiColsOkB exPsiInMsa = true := by decide +kernel
+example : PsiblastTextWritable exPsiInMsa :=
+  psiblast_read_in_domain_text (splitLines exPsiIn) exPsiInMsa [] (by decide +kernel) (by decide +kernel) (by decide +kernel)
+    (by decide +kernel)
+example : psiblastRead (psiblastCfg none) (splitLines (psiblastWrite none exPsiInMsa)) = (.ok exPsiInMsa, []) := by decide +kernel
+
+/-- outside the proved domain, yet stable on the model: `s1 ACgT` / `s2 AC-T` (a lower-case insert, `rf` = `xx.x`) -/
+def exPsiLowerIn : Bytes := [115, 49, 32, 65, 67, 103, 84, 10, 115, 50, 32, 65, 67, 45, 84, 10]
+
+def exPsiLowerMsa : Msa :=
+  { alen := 4, names := [[115, 49], [115, 50]], aseq := [[65, 67, 103, 84], [65, 67, 45, 84]], wgt := [.dflt, .dflt],
+    rf := some [120, 120, 46, 120] }
+
+example : psiblastRead (psiblastCfg none) (splitLines exPsiLowerIn) = (.ok exPsiLowerMsa, []) := by decide +kernel
+example : psiRowsUpperB exPsiLowerMsa = false := by decide +kernel
+example : psiblastRead (psiblastCfg none) (splitLines (psiblastWrite none exPsiLowerMsa)) = (.ok exPsiLowerMsa, []) := by
+  decide +kernel
+
+/-- COUNTEREXAMPLE (`cluNamesNeB` is needed): NUL `x ACGT`: the name is stored empty, the written line starts with blanks -/
+def exPsiNulIn : Bytes := [0, 120, 32, 65, 67, 71, 84, 10]
+
+def exPsiNulMsa : Msa := { alen := 4, names := [[]], aseq := [[65, 67, 71, 84]], wgt := [.dflt], rf := some [120, 120, 120, 120] }
+
+example : psiblastRead (psiblastCfg none) (splitLines exPsiNulIn) = (.ok exPsiNulMsa, []) := by decide +kernel
+example : cluNamesNeB exPsiNulMsa = false := by decide +kernel
+example : psiblastWrite none exPsiNulMsa = [32, 32, 65, 67, 71, 84, 10] := by decide +kernel
+example : (match (psiblastRead (psiblastCfg none) (splitLines (psiblastWrite none exPsiNulMsa))).1 with
+           | .eformat _ => true
+           | _ => false) = true := by decide +kernel
+
+/-! ### A2M and aligned FASTA: the condition on the name lines, as a condition on the INPUT
+
+`a2mHdrOkB` / `afaHdrOkB` hold whenever no input line (as delivered by `splitLines`: without its LF and without the CR of a
+CR LF) holds a CR or a LF byte, i.e. the file has no CR other than in CR LF line ends. -/
+
+theorem a2m_reformat_stable_text_of_lines (lines : List Bytes) (m : Msa) (rest : List Bytes)
+    (h : a2mRead (a2mCfg none) lines = (.ok m, rest)) (hl : ∀ l ∈ lines, ∀ x ∈ l, notCrLf x = true) :
+    a2mRead (a2mCfg none) (splitLines (a2mWrite none m)) = (.ok (a2mProjectIns none (a2mCfg none) id m), []) :=
+  a2m_reformat_stable_text lines m rest h (a2mHdrOkB_of_lines _ lines m rest h hl)
+
+theorem a2m_reformat_stable_digital_of_lines (a : Abc) (ha : a = abcAmino ∨ a = abcDna ∨ a = abcRna) (lines : List Bytes) (m : Msa)
+    (rest : List Bytes) (h : a2mRead (a2mCfg (some a)) lines = (.ok m, rest)) (hl : ∀ l ∈ lines, ∀ x ∈ l, notCrLf x = true) :
+    a2mRead (a2mCfg (some a)) (splitLines (a2mWrite (some a) m))
+      = (.ok (a2mProjectIns (some a) (a2mCfg (some a)) (a2mEnc a) m), []) :=
+  a2m_reformat_stable_digital a ha lines m rest h (a2mHdrOkB_of_lines _ lines m rest h hl)
+
+theorem afa_reformat_stable_digital_of_lines (a : Abc) (ha : a = abcAmino ∨ a = abcDna ∨ a = abcRna) (lines : List Bytes) (m : Msa)
+    (rest : List Bytes) (h : afaRead (afaCfg (some a)) lines = (.ok m, rest)) (hl : ∀ l ∈ lines, ∀ x ∈ l, notCrLf x = true) :
+    afaRead (afaCfg (some a)) (splitLines (afaWrite (some a) m)) = (.ok (afaProject (afaCfg (some a)) m), []) :=
+  afa_reformat_stable_digital a ha lines m rest h (afaHdrOkB_of_lines _ lines m rest h hl)
+
+theorem afa_reformat_stable_text_of_lines (lines : List Bytes) (m : Msa) (rest : List Bytes)
+    (h : afaRead (afaCfg none) lines = (.ok m, rest)) (hl : ∀ l ∈ lines, ∀ x ∈ l, notCrLf x = true) (hgt : afaNoGtB m = true) :
+    afaRead (afaCfg none) (splitLines (afaWrite none m)) = (.ok (afaProject (afaCfg none) m), []) :=
+  afa_reformat_stable_text lines m rest h (afaHdrOkB_of_lines _ lines m rest h hl) hgt
+
+example : ∀ l ∈ splitLines exA2mIn, ∀ x ∈ l, notCrLf x = true := by decide +kernel
+example : ∀ l ∈ splitLines exAfaDnaIn, ∀ x ∈ l, notCrLf x = true := by decide +kernel
+example : afaRead (afaCfg (some abcDna)) (splitLines (afaWrite (some abcDna) exAfaDnaInMsa))
+    = (.ok (afaProject (afaCfg (some abcDna)) exAfaDnaInMsa), []) :=
+  afa_reformat_stable_digital_of_lines abcDna (Or.inr (Or.inl rfl)) (splitLines exAfaDnaIn) exAfaDnaInMsa [] (by decide +kernel)
+    (by decide +kernel)
+
+/-! ## ===== READ-DOMAIN — end ===== -/
 
 /-! ## ===== AUTODETECT — begin =====
 
